@@ -101,7 +101,7 @@ class Transport:
 
 
 class Op:
-    __slots__ = ("i", "kind", "tr", "layer", "args", "result", "fut", "forced", "task", "t", "stream", "state")
+    __slots__ = ("i", "kind", "tr", "layer", "args", "result", "fut", "forced", "task", "t", "stream", "state", "closed_from")
 
     def __init__(self, i, kind, tr, layer, args, task, t):
         self.i = i
@@ -116,6 +116,7 @@ class Op:
         self.t = t
         self.stream = None
         self.state = "new"
+        self.closed_from = None     # sync close only: httpcore functions on the stack (diagnostic, not part of the ledger record)
 
     def rec(self):
         a = {}
@@ -292,7 +293,7 @@ class SimStream(_StreamCommon, httpcore.NetworkStream):
             if "/httpcore/" in f.f_code.co_filename:
                 chain.append(f"{f.f_code.co_filename.rsplit('/', 1)[-1]}:{f.f_code.co_qualname}")
             f = f.f_back
-        op.args["closed_from"] = chain[:6]
+        op.closed_from = chain[:6]
         net.env.sync_point(op)
         op.state = "ok"
         net._close_transport(self._tr)
